@@ -84,6 +84,25 @@ pub fn lookup(op: u8) -> Result<&'static Definition, String> {
 }
 
 /*
+ * Check that every operand fits into the width it is encoded with. 'make'
+ * narrows operands with 'as u16' / 'as u8', so an operand that does not fit
+ * would otherwise be truncated silently.
+ */
+pub fn operands_fit(op: Opcode, operands: &[usize]) -> bool {
+    match DEFINITIONS.get(&op) {
+        Some(def) => operands
+            .iter()
+            .zip(def.operand_widths)
+            .all(|(&operand, &width)| match width {
+                2 => operand <= u16::MAX as usize,
+                1 => operand <= u8::MAX as usize,
+                _ => false,
+            }),
+        None => true,
+    }
+}
+
+/*
  * Helper function to build up bytecode instructions
  * After calculating the final value of instruction_len, allocate the
  * 'instruction' vector with a fixed capacity and add the opcode as the
